@@ -24,7 +24,7 @@ class Check:
 
     def rule(self):
         return ("sequential: random sequences of make_ref / make_mut (three payload types, drop-tracking, serial numbers), "
-                "directly on ValueChain, through an original Unimock and through a clone (payloads incl. a zero-sized Drop type); values lent through the delegation helpers of &mut self / &self provided methods (dropped only at teardown); every retained reference is re-read "
+                "directly on ValueChain, through an original Unimock and through a clone (payloads incl. a zero-sized Drop type); values lent through the delegation helpers of &mut self / &self / Pin<&mut Self> provided methods (dropped only at teardown); instances with lent values dropped while their thread unwinds (values released exactly once); every retained reference is re-read "
                 "after every further operation (serial + address distinctness) and the drop log is compared per operation "
                 "with the Lean model; long chains (thousands of values); a chain of 5000 values released by one make_mut on a thread with a 48 KiB stack, in its own process (the release must not recurse per node); concurrent: 2-4 threads lending through one shared "
                 "&ValueChain / &Unimock under the controlled scheduler (yield before every try_insert), ALL schedules up to the "
@@ -89,6 +89,8 @@ class Check:
                     texts.append(f"scenario p{k}_{via}\nvia {via}\npar threads={th} per={per} pre={pre}\nend\n")
             for n in ([1, 2, 3, 7] if tier == 'quick' else [1, 2, 3, 7, 50, 400]):
                 texts.append(f"scenario helper_{n}\nvia unimock\nhelper n={n}\nend\n")
+            for n, cl in [(1, 0), (3, 0), (3, 1), (6, 1)]:
+                texts.append(f"scenario unwinddrop_{n}_{cl}\nvia unimock\nunwinddrop n={n} clone={cl}\nend\n")
             rounds = 40 if tier == 'quick' else 600
             for via in ('chain', 'unimock'):
                 texts.append(f"scenario stress_{via}\nvia {via}\nstress threads=8 per=150 rounds={rounds}\nend\n")
@@ -125,6 +127,15 @@ class Check:
             if crash:
                 total += 1
                 spec_bad.append((n, f"lending panicked: {crash[6:200]}"))
+                continue
+            if any(l.startswith('unwinddrop ') for l in r):
+                line = next(l for l in r if l.startswith('unwinddrop '))
+                mm = re.match(r'unwinddrop n=(\d+) clone=(\w+) unwound=(\w+) dropped=(\d+)$', line)
+                total += 1; nontriv += 1
+                if not mm or mm.group(3) != 'true':
+                    spec_bad.append((n, f"unexpected line {line}"))
+                elif mm.group(4) != mm.group(1):
+                    spec_bad.append((n, f"{mm.group(1)} values lent by an instance that was then dropped while its thread was unwinding, {mm.group(4)} dropped (every lent value is dropped exactly once)"))
                 continue
             if any(l.startswith('helper ') for l in r):
                 line = next(l for l in r if l.startswith('helper '))
